@@ -1,5 +1,5 @@
 # Wording of MANIFEST.json per property.
-HOOK_COMMITS = ['7bf3a7c', 'e0ec659']
+HOOK_COMMITS = ['7bf3a7c', 'e0ec659', '7eca066']
 NOT_YET = {}
 TEXT = {
  'C19': dict(
@@ -112,5 +112,34 @@ TEXT = {
         'probabilistic timers and scheduler behaviour cannot be exhibited by the model; they are measured on real clusters (convergence within 20 election timeouts after a random fault period; InstallSnapshot-repeat counter).',
   note='Trusted: Coq kernel; wall clock for the convergence scenarios.',
   technique='Coq proof (follower-side progress after snapshot install) + exhaustive differential enumeration + measured real-timer convergence',
+ ),
+ 'C03': dict(
+  level='PARTIAL. Machine-checked theorems (Coq) for the per-leadership and per-server facts leader completeness rests on: a new leader\'s commitment starts above everything its log held at election, so for ANY sequence of match reports its commit index is 0 or above the '
+        'election-time last index (no old-term entry committed by counting, Figure 8 - C03_commit_only_above_election_last_index, from C05_commit_sound); votes are cast only after the log up-to-date check over any history with crashes (C06); followers delete only from the first conflicting index (C04); '
+        'the leader counts itself only after its own StoreLogs succeeded. The cluster-level induction (every later leader holds every committed entry) is NOT proved; it is checked on real histories (every Leader transition vs everything acknowledged/applied before; replaced/deleted applied entries). '
+        'Tie: leader sequences on real servers diffed against the leader model (start index, commit steps), node sequences, cluster histories.',
+  note='Trusted: Coq kernel; harness; sampled schedules for the cluster part. Operator overrides (RecoverCluster, Restore) are outside the property and not used in these scenarios.',
+  technique='Coq proof (commitment invariant instantiated at setupLeaderState) + differential leader sequences + monitored real-cluster histories',
+ ),
+ 'C08': dict(
+  level='PARTIAL. Machine-checked theorems (Coq) over the leader model: for ANY batch mixing commands, barriers and configurations with or without futures, each future receives the FSM response of ITS OWN entry at that entry\'s index (C08_response_pairing, '
+        'the shouldSend counter logic of applyBatch); dispatch assigns consecutive indices above the last index in call order; only futures at or below the commit index are answered. Cross-server exactly-once and the definite-failure clauses need the global theorems and are checked on real histories. '
+        'Tie: leader sequences with plain and batching FSM on real servers diffed against the model; cluster histories with concurrent clients, slow FSM and barriers.',
+  note='Trusted: Coq kernel; harness FSM (response = payload*7+3) ; Go select semantics for ErrEnqueueTimeout.',
+  technique='Coq proof (response pairing by induction over the batch) + differential leader sequences + monitored histories with slow FSM',
+ ),
+ 'C09': dict(
+  level='Machine-checked theorems (Coq) over the leader model (after the fix: commit for F2): VerifyLeader is registered only with voters of the latest configuration (never the leader itself), success needs the caller\'s vote plus positive answers of quorumSize-1 registered peers with no negative one before, '
+        'quorumSize is a strict majority of voters. PARTIAL: freshness - that every counted exchange was started after the call - does not hold on this code (KNOWN-FINDING F2b: exchanges sent before the call are counted when their answer is processed after registration) and is therefore not a theorem; '
+        'the monitor checks it on real histories and reports the known finding by its signature. Tie: verifyLeader registration/counters on real servers in leader sequences; cluster scenarios with partitions, lost and held answers, competing elections.',
+  note='Trusted: Coq kernel; harness transport (records when an answer is handed to the caller).',
+  technique='Coq proof (registration set, vote counting) + differential leader sequences + monitored VerifyLeader scenarios',
+ ),
+ 'C20': dict(
+  level='Machine-checked theorems (Coq) over the model of restoreUserSnapshot: on success the FSM holds exactly the supplied snapshot, the burned index is max(snapshot index, last index)+1 > both, every in-flight future fails with ErrAbortedByRestore and nothing stays in flight, the stored snapshot carries the current configuration, '
+        'every later dispatch gets an index above the snapshot index and all earlier indices; refused without any effect while a configuration change is uncommitted. PARTIAL: follower convergence is C12 (the follower-side progress step is proved, the time bound is runtime); refusal during leadership transfer is in leaderLoop (tie by the loop table of C17 when built). '
+        'Tie: restoreUserSnapshot on real servers in leader sequences (both store kinds, wrong size, failures) diffed against the model; cluster scenarios with Restore racing Apply/AddVoter and lagging followers.',
+  note='Trusted: Coq kernel; harness.',
+  technique='Coq proof (characterisation of restoreUserSnapshot) + differential leader sequences + monitored Restore scenarios',
  ),
 }
